@@ -280,8 +280,13 @@ theorem inv_discard (s : Acc) (r : SchedRec) (hi : AInv s) (hr : r ∈ s.scheds)
   · exact inv_freeSched s r hi hr
   · exact inv_setUsed s r.id .notUsed hi
 
-theorem inv_main_irrelevant (s : Acc) (m : List (StreamId × SchedId)) (hi : AInv s) : AInv { s with main := m } :=
-  ⟨hi.count, hi.live, hi.ids⟩
+/-- the invariant speaks about pools, num_scheds and scheduler objects only -/
+theorem AInv.congr {s s' : Acc} (hi : AInv s) (hp : s'.pools = s.pools) (hn : s'.ns = s.ns)
+    (hk : s'.scheds = s.scheds) : AInv s' := by
+  constructor
+  · intro p; rw [hn, hk]; exact hi.count p
+  · intro r hr p hpp; rw [hk] at hr; rw [hp]; exact hi.live r hr p hpp
+  · rw [hk]; exact hi.ids
 
 theorem inv_init : AInv ainit := by
   constructor
@@ -360,7 +365,7 @@ theorem inv_step (s : Acc) (e : AEv) (s' : Acc) (hi : AInv s) (hs : astep s e = 
     simp only [astep] at hs
     split at hs
     · split at hs
-      · cases hs; exact inv_main_irrelevant _ _ (inv_setUsed s k .main hi)
+      · cases hs; exact (inv_setUsed s k .main hi).congr rfl rfl rfl
       · cases hs
     · cases hs
   | replace x k =>
@@ -370,10 +375,7 @@ theorem inv_step (s : Acc) (e : AEv) (s' : Acc) (hi : AInv s) (hs : astep s e = 
       · split at hs
         · rename_i ro hro
           cases hs
-          have hi1 : AInv { s with scheds := setUsed s.scheds k .main,
-                                   main := (x, k) :: s.main.filter (fun m => m.1 != x) } :=
-            inv_main_irrelevant _ _ (inv_setUsed s k .main hi)
-          exact inv_discard _ ro hi1 (sched?_mem _ _ ro hro).1
+          exact inv_discard _ ro ((inv_setUsed s k .main hi).congr rfl rfl rfl) (sched?_mem _ _ ro hro).1
         · cases hs
       · cases hs
     · cases hs
@@ -383,7 +385,19 @@ theorem inv_step (s : Acc) (e : AEv) (s' : Acc) (hi : AInv s) (hs : astep s e = 
     · split at hs
       · rename_i ro hro
         cases hs
-        exact inv_discard _ ro (inv_main_irrelevant _ _ hi) (sched?_mem s _ ro hro).1
+        exact inv_discard _ ro (hi.congr rfl rfl rfl) (sched?_mem _ _ ro hro).1
+      · cases hs
+    · cases hs
+  | join x =>
+    simp only [astep] at hs
+    split at hs
+    · cases hs; exact hi.congr rfl rfl rfl
+    · cases hs
+  | revive x =>
+    simp only [astep] at hs
+    split at hs
+    · split at hs
+      · cases hs; exact hi.congr rfl rfl rfl
       · cases hs
     · cases hs
   | stackPush k =>
